@@ -99,6 +99,20 @@ ROWS = [
       cflags=["-Werror=incompatible-pointer-types"]),
     R("yylmax", "%option yylmax=333\n%array", None, [("compiles",)], without_opt="%array",
       base={"code": "typedef char probe_t[sizeof(yytext) == 333 ? 1 : -1];\n" + MAIN}),
+    # yylmax is the size of yytext[]: a token of yylmax-1 characters fits (with and without a
+    # yymore() elsewhere in the scanner), one of yylmax characters is the documented fatal error
+    R("yylmax-fits", "%option yylmax=16\n%array", None,
+      [("run", b"abcdefghijklmno pqr\n", "15 3 \n")], without_opt="%array\n%option yylmax=12",
+      base={"rules": "[a-z]+   { printf(\"%d \", (int) yyleng); }\n[ \\n]  ;\n",
+            "code": "int main(void) { while (yylex()) ; printf(\"\\n\"); return 0; }\n"},
+      without_expect_fail=True),
+    R("yylmax-fits-yymore", "%option yylmax=16\n%array", None,
+      [("run", b"abcdefghijklmno pqr x-yz\n", "15 3 4 \n")], without_opt="%array\n%option yylmax=12",
+      base={"rules": "[a-z]+-  { yymore(); }\n[a-z]+   { printf(\"%d \", (int) yyleng); }\n[ \\n]  ;\n",
+            "code": "int main(void) { while (yylex()) ; printf(\"\\n\"); return 0; }\n"},
+      without_expect_fail=True),
+    R("stdout-outfile", '%option stdout outfile="named_scanner.c"', ["-t", "-o", "named_scanner.c"],
+      [("stdout_has", '"named_scanner.c"'), ("stdout_lacks", '"<stdout>"')], no_o=True),
     R("bufsize", "%option bufsize=4321", None, [("compiles",)],
       base={"code": "typedef char probe_t[YY_BUF_SIZE == 4321 ? 1 : -1];\n" + MAIN}),
     R("yydecl", '%option yydecl="int mylex(int probe)"', None, [("compiles",), ("run", b"aa", "1\n")],
@@ -338,6 +352,8 @@ def probe(flex, b, p):
     if k == "file_has":
         fp = os.path.join(b.dir, p[1])
         return os.path.exists(fp) and p[2] in util.read(fp, True)
+    if k == "stdout_lacks":
+        return bool(b.stdout) and p[1].encode() not in b.stdout
     if k == "stdout_has":
         return p[1].encode() in b.stdout
     if k in ("header_ok", "header_ok_r", "header_ok_c99"):
